@@ -25,11 +25,14 @@ if [ "$pk" = "main" ]; then d=.; fi
 if [ "$d" = "." ] && [ "$pk" != "main" ]; then d=$(grep -rl "^package $pk\$" $wt --include=*.go | head -1 | xargs dirname | sed "s|$wt/||"); fi
 echo "demo dir: $d (package $pk)" >> $out
 cp $dst/demo_test.go $wt/$d/zz_seed_demo_test.go
-(cd $wt && go test -vet=off -count=1 -run 'Demo|Seed|C[0-9][0-9]' ./$d/ 2>&1 | tail -3) > $dst/.clean.txt
+runre=$(grep -o '^func Test[A-Za-z0-9_]*' $dst/demo_test.go | sed 's/func //' | paste -sd'|')
+[ -z "$runre" ] && runre=.
+echo "demo tests: $runre" >> $out
+(cd $wt && go test -vet=off -count=1 -run "^($runre)\$" ./$d/ 2>&1 | tail -3) > $dst/.clean.txt
 echo "demo WITHOUT patch: $(tail -1 $dst/.clean.txt)" >> $out
 if ! git -C $wt apply $dst/patch.diff 2>>$out; then echo "PATCH DOES NOT APPLY" >> $out; fi
 (cd $wt && go build ./... 2>&1 | tail -3) >> $out
-(cd $wt && go test -vet=off -count=1 -run 'Demo|Seed|C[0-9][0-9]' ./$d/ 2>&1 | tail -3) > $dst/.patched.txt
+(cd $wt && go test -vet=off -count=1 -run "^($runre)\$" ./$d/ 2>&1 | tail -3) > $dst/.patched.txt
 echo "demo WITH patch: $(tail -1 $dst/.patched.txt)" >> $out
 rm -f $wt/$d/zz_seed_demo_test.go
 (cd $wt && go test -vet=off -count=1 ./... 2>&1 | grep -v '^ok\|no test files' | head -5) > $dst/.suite.txt
